@@ -16,7 +16,8 @@ RULE = ("both networks x random seeds x accounts/intervals x every output-produc
         "random paths, group rows, account keys, node_extended_keys, default extended keys, generate() minus the BIP85 block, "
         "wasabi_json) + wallets re-imported from each of the 12 version prefixes; every string leaf is classified by an "
         "independent network classifier (Base58 version byte, Bech32 hrp, SLIP-132 version, coin component of BIP44-shaped "
-        "paths); distinct = distinct (monitor, case) digests")
+        "paths); distinct = distinct (monitor, case) digests"
+        " EXTENSIONS: + nodes the caller parsed with the other / the default network flag handed to the wallet, caller edits of returned version lists before an import, one listing of 2^15+600 rows in fast mode, accounts equal to meaningful numbers")
 LEVEL_TEXT = ("Every network-tagged string a real wallet emits is decoded independently and must carry the wallet's own "
               "network; a leaf that classifies as the other network is the violation, unclassifiable leaves are counted and "
               "ignored. Re-import from each of the 12 prefixes must set the network from the prefix alone and everything the "
@@ -191,6 +192,17 @@ def run(ctx):
                              "as_master": L > 0 and rnd.random() < 0.5,
                              "scribble": rnd.choice([None, None, "test+=main", "main+=test", "prv+=pub", "pub+=prv"]),
                              "scribble_clear": rnd.random() < 0.3})
+    # one listing of 2^15 + 600 rows (fast mode, see c06.huge_listing_rows): every row's address and WIF carry the wallet's tag
+    if ctx.mine_once(6):
+        from .c06 import huge_listing_rows
+        tnh = bool(ctx.seed & 1) or True
+        case = {"route": "from_bip39_seed_bytes", "seed": gen.rbytes(rnd, 32), "testnet": tnh, "purpose_listed": 84, "account": 0, "start": 0,
+                "n": (1 << 15) + 600 if not ctx.thorough else (1 << 16) + 600}
+        try:
+            w, tn, keys, rows = huge_listing_rows(case)
+            scan(ctx, "huge_listing", [keys, [r[1:] for r in rows]], tn, case, "huge")
+        except Exception as ex:  # noqa
+            ctx.judge("leaf_network", False, case, "rows", ex, cls="huge|raised", mech="C16.emit.raised")
     ctx.judge("classified_leaves", ctx.extra.get("classified_leaves", 0) > 0, {"classified": ctx.extra.get("classified_leaves", 0)},
               cls="count", mech="C16.nothing_classified")
 
